@@ -12,8 +12,11 @@ RULE = ("rpc/encoded reply values (structs, arrays of simple and of struct items
         "the real client, and MultiRef.process vs the model on the body tree; non-trivial = at least one out-lined "
         "node; distinct = distinct (value, out-lining)")
 ASSUMPTIONS = ["references are acyclic and an href sits on a value element, not on a multiRef element itself"]
-PARTIAL = [{"theorem": "outline_inline_equiv (whole reply)", "missing": "proved for one reference level (resolve_reference) "
-            "plus locality lemmas; arbitrary nesting rests on the correspondence + the decode oracle"}]
+PARTIAL = [{"theorem": "decoded values (not trees) equal", "missing": "outlined_body_decodes proves, for every tree, every set "
+            "of out-lined nodes and every nesting depth, that resolution returns the inline TREE (writer = "
+            "Elem.outline/mkRef, ids distinct); that the schema-driven decoder maps equal trees to equal values is by "
+            "construction, and what it maps them to is checked on the implementation (decode oracle); readers' "
+            "variations of the writer (soapenc:root markers, positions, prefixes) are covered by the correspondence"}]
 TRUSTED = []
 
 ENC = xmlread.ENC
